@@ -276,9 +276,10 @@ Proof. exact translated_clip_preserves. Qed.
    exception) for every list of boxes that are [printable]: of the right
    length, with non-empty intervals and, when the boxes are clipped to the
    type hints (show_dom in effect), non-empty hints that every box meets.
-   (A box of the cover that is disjoint from the hints - possible only when f
-   has points outside care - makes the real code raise `assert not disjoint
-   ranges`; such inputs are the `rejected` class of the correspondence.) *)
+   (A box of the cover that is disjoint from the hints makes the real code
+   raise `assert not disjoint ranges`; such inputs are the `rejected` class of
+   the correspondence.  OBSERVATION, not proved: in the sampled runs this
+   happened only when f has points outside care.) *)
 Theorem C08_dumps_cover_total :
   forall limits doms care care_is_true (show_dom : bool) show_limits K,
   Forall (printable (if show_dom then care_implies_hints limits doms care
@@ -324,15 +325,6 @@ Proof.
     as [g|]; [exists g; reflexivity|discriminate].
 Qed.
 
-(* non-vacuity: the boxes of C08_instance are printable with clipping on *)
-Example C08_printable_instance :
-  Forall (printable true [(0, 2); (0, 1)])
-         [[(0,0);(0,1)]; [(2,3);(1,1)]].
-Proof.
-  repeat constructor; unfold proper, meets; cbn [fst snd]; try lia;
-    intros _; repeat constructor; unfold proper, meets; cbn [fst snd]; lia.
-Qed.
-
 (* non-vacuity of the hypotheses of the tie-T theorems *)
 Example C08_translated_instance :
   let limits := [(0, 3); (0, 1)] in
@@ -356,6 +348,43 @@ Example C08_translated_instance :
               EIn (TVar 2) (TNum 2) (TNum 3); ECmp CEq (TVar 3) (TNum 1)]].
 Proof. exact translated_instance. Qed.
 
+(* non-vacuity of the totality theorems, in ONE example: for the table, care
+   set and cover of C08_translated_instance, care implies the type hints (so
+   show_dom = true puts clipping into effect), the boxes are printable with
+   that flag, and C08_translated_printer_total - every hypothesis discharged
+   - gives that the translated printer returns *)
+Example C08_printable_instance :
+  let limits := [(0, 3); (0, 1)] in
+  let doms := [(0, 2); (0, 1)] in
+  let care := mem_pt [[0;0]; [0;1]; [1;0]; [1;1]; [2;0]; [2;1]] in
+  let K := [[(0,0);(0,1)]; [(2,3);(1,1)]] in
+  care_implies_hints limits doms care = true /\
+  Forall (printable (if true then care_implies_hints limits doms care else false)
+                    doms) K /\
+  exists e,
+    cov_dumps_cover (fun l => l) (fun l => l) (seq 0 2, map prod_of K)
+      ex_vars true true true [O; 1%nat]
+      (care_implies_hints limits doms care) false = Some e.
+Proof.
+  cbv zeta.
+  pose proof C08_translated_instance as T. cbv zeta in T.
+  destruct T as (H1 & H2 & _).
+  assert (Forall (printable true [(0, 2); (0, 1)])
+            [[(0,0);(0,1)]; [(2,3);(1,1)]]) as HP.
+  { repeat constructor; unfold proper, meets; cbn [fst snd]; try lia;
+      intros _; repeat constructor; unfold proper, meets; cbn [fst snd]; lia. }
+  split; [exact H2|]. split; [rewrite H2; exact HP|].
+  apply (C08_translated_printer_total (fun l => l) (fun l => l)
+           (fun l => Permutation_refl l)
+           [O; 1%nat] ex_vars [(0, 3); (0, 1)] [(0, 2); (0, 1)]).
+  - reflexivity.
+  - discriminate.
+  - reflexivity.
+  - intros i Hi. apply (H1 i Hi).
+  - intros i Hi. apply (H1 i Hi).
+  - rewrite H2. exact HP.
+Qed.
+
 Print Assumptions C08_dnf_equiv_on_care.
 Print Assumptions C08_clip_preserves.
 Print Assumptions C08_clip_defined.
@@ -377,3 +406,6 @@ Print Assumptions C08_translated_dnf_equiv_on_care.
 Print Assumptions C08_translated_clip_preserves.
 Print Assumptions C08_dumps_cover_total.
 Print Assumptions C08_translated_printer_total.
+Print Assumptions C08_printable_instance.
+Print Assumptions C08_translated_instance.
+Print Assumptions C08_instance.
